@@ -129,3 +129,36 @@ func zzC01WaterStep(n, wdtDen, first int) {
 		vCover("C01.cover_drain")
 	}
 }
+
+func init() {
+	vRegister("zzC02WaterReach", func(a []int) { zzC02WaterReach(a[0]) })
+}
+
+// zzC02WaterReach: backward-reachability link for C02. On the first sub-step of
+// a day, with the available-water fraction NFK consistent with the water
+// content the same day (as Evatra computes it), can Water hand nmove a state
+// with drain outflow and an upward flux at the drain depth?
+func zzC02WaterReach(n int) {
+	g, l, wdt := zzWaterState(n, 1)
+	for i := 0; i < n; i++ {
+		g.WNOR[i] = vFloat("wnor", i)
+		vAssume(g.WMIN[i] < g.WNOR[i] && g.WNOR[i] <= g.W[i])
+		vAssume(g.WG[0][i] >= g.WMIN[i]/3 && g.WG[0][i] <= g.W[i])
+		nfk := (g.WG[0][i] - g.WMIN[i]) / (g.WNOR[i] - g.WMIN[i])
+		if i == 0 {
+			nfk = (g.WG[0][0] + g.FLUSS0/g.DZ.Num - g.WMIN[0]) / (g.WNOR[0] - g.WMIN[0])
+		}
+		if nfk < 0 {
+			nfk = 0
+		}
+		l.NFK[i] = nfk
+		vAssume(g.TP[i] == 0)
+	}
+	vAssume(g.FLUSS0 > 0 && g.FLUSS0 < 20)
+	vAssume(g.DRAIDEP >= 1)
+	for i := 0; i < 21; i++ {
+		vAssume(g.CAPS[i] <= 0.55)
+	}
+	Water(wdt, 1, 5, g, l)
+	vAssert("C02.link.no_drain_with_upward_flux", !(g.QDRAIN > 0 && g.Q1[g.DRAIDEP] < 0))
+}
